@@ -99,7 +99,7 @@ var verifApkSlots = []string{".pre-install", ".post-install", ".pre-deinstall", 
 
 // Verif_C09_ApkScripts: configured scripts are control members under apk's names, verbatim, mode 0755.
 func Verif_C09_ApkScripts() {
-	sc := scen.Payload(scen.Options{})
+	sc := scen.Payload(scen.Options{UmaskChoice: true})
 	mt := time.Unix(1500000000, 0).UTC()
 	var body [6][]byte
 	var set [6]bool
